@@ -15,6 +15,7 @@ import Alpen.Model.Import
 import Alpen.Model.Cli
 import Alpen.Model.Hsm
 import Alpen.Model.Transport
+import Alpen.Model.FileWalk
 /-!
 Line-protocol driver: one operation per line on stdin, one canonical answer line on
 stdout.  Strings travel as comma-separated code points (`-` = empty string).
@@ -140,6 +141,28 @@ def decPairsNI (t : String) : Option (List (Nat × Int)) :=
     | [a, b] => do pure (← a.toNat?, ← b.toInt?)
     | _ => none)
 
+/-- file tree in preorder: tokens `name:F` `name:S` `name:O` `name:D:k` `name:L:k` (k children follow) -/
+partial def parseFsEntry : List String → Option ((String × FsNode) × List String)
+  | [] => none
+  | tok :: rest =>
+    match tok.splitOn ":" with
+    | [n, "F"] => some ((n, .file), rest)
+    | [n, "S"] => some ((n, .symFile), rest)
+    | [n, "O"] => some ((n, .other), rest)
+    | [n, k, c] => do
+        let sym ← (match k with | "D" => some false | "L" => some true | _ => none)
+        let c ← c.toNat?
+        let rec go (i : Nat) (acc : List (String × FsNode)) (toks : List String) :
+            Option (List (String × FsNode) × List String) :=
+          match i with
+          | 0 => some (acc.reverse, toks)
+          | i + 1 => do
+              let (e, toks') ← parseFsEntry toks
+              go i (e :: acc) toks'
+        let (cs, rest') ← go c [] rest
+        pure ((n, .dir sym cs), rest')
+    | _ => none
+
 def pure1 (toks : List String) : Option String :=
   match toks with
   | ["iip", s] => do
@@ -153,6 +176,17 @@ def pure1 (toks : List String) : Option String :=
   | ["canon", s] => do
       let s ← decStr s
       pure (encBool (decide (Canonical s)))
+  | ["fwalk", pfx, top] => do
+      let pfx := if pfx = "-" then [] else pfx.splitOn "/"
+      let top ← (match top with
+        | "absolute" => some WalkTop.absolute
+        | "missing" => some WalkTop.missing
+        | t => do
+            let (e, rest) ← parseFsEntry (t.splitOn ",")
+            if rest.isEmpty then some (WalkTop.at e.2) else none)
+      match fileWalk pfx top with
+      | none => pure "valueError"
+      | some ps => pure ("ok " ++ (if ps.isEmpty then "-" else ",".intercalate (ps.map (fun p => "/".intercalate p))))
   | ["walk", tbl, c, k] => do
       let tbl ← decNats tbl; let c ← c.toNat?; let k ← k.toNat?
       match walkerGet tbl c k with
